@@ -33,6 +33,10 @@ def main(ctx):
         cases.append({"id": h(["closure", ident]), "fam": "closure", "ident": ident, "src": src})
     for ident, src in progen.completion_probes():
         cases.append({"id": h(["completion", ident]), "fam": "completion", "ident": ident, "src": src, "sloppy": True})
+    for ident, src in progen.first_statement_loops():
+        if ctx.quick and ident[4] == 4 and ident[3] not in (0, 1):
+            continue
+        cases.append({"id": h(["firstloop", ident]), "fam": "first-statement-loop", "ident": list(ident), "src": src})
     rng = random.Random(ctx.seed)
     hr = random.Random(ctx.seed * 31 + 7)
     for i in range(600 if ctx.quick else 12000):
